@@ -57,6 +57,10 @@ class Reply:
         self.crash = raw if isinstance(raw, sut_c.Crash) else None
         self.status = "CRASH" if self.crash else raw.split(" ", 1)[0]
         self.fields: List[str] = [] if self.crash else raw.split()
+        self.addr = None
+        if self.fields and self.fields[-1].startswith("@"):
+            a = self.fields.pop()[1:].split(",")
+            self.addr = {"wire": int(a[0], 16), "wire_len": int(a[1]), "struct": int(a[2], 16), "struct_size": int(a[3])}
         if self.status == "CANARY":
             # CANARY wire=.. struct=.. <payload...>
             self.canary = " ".join(self.fields[1:3])
